@@ -313,6 +313,27 @@ example : ¬ RemovedOnceThenSilence 1 [.drop 1, .sendTo 1 [], .exit] := by decid
 example : notPolledAfterClose 1 [{ polls := [⟨1, [.err], false⟩] }, { polls := [⟨1, [.none], false⟩] }] = false := by
   decide
 
+/-! ### The heartbeat clauses
+
+`timedOut` and `willPing` are INPUTS of the model (clock readings), so no theorem above can say when they must be
+true. What the heartbeat owes the clients is stated in `Spec/WsApp.lean` over the observable timeline of a run
+(`liveClientKept`, `silentClientTimedOut`, `pingCadenceOk`) and evaluated by the driver on every real run with a
+heartbeat, from the scripted sockets' delivery times and the tracer's events. The clauses separate good from bad
+timelines (timeout 8, interval 5): -/
+
+/-- a client whose Pong was delivered at [6, 7] may be timed out at 14, not at 13 - wherever in its frame stream
+the Pong stood -/
+example : liveClientKept 8 none [.life 0 1, .alive 5, .life 6 7, .timedOut 14] = true := by decide
+example : liveClientKept 8 none [.life 0 1, .alive 5, .life 6 7, .timedOut 13] = false := by decide
+/-- a client silent since [0, 1] may be kept at 8, not at 9 -/
+example : silentClientTimedOut 8 none [.life 0 1, .alive 8] = true := by decide
+example : silentClientTimedOut 8 none [.life 0 1, .alive 9] = false := by decide
+example : silentClientTimedOut 8 none [.life 0 1, .alive 8, .life 8 9, .alive 16] = true := by decide
+/-- pings are `interval` apart: not closer, and none left out -/
+example : pingCadenceOk 5 none [.pinged 0 1, .notPinged 5, .pinged 6 7, .notPinged 11] = true := by decide
+example : pingCadenceOk 5 none [.pinged 0 1, .pinged 3 4] = false := by decide
+example : pingCadenceOk 5 none [.pinged 0 1, .notPinged 6] = false := by decide
+
 /-- Without `DistinctPeers` the connect statement fails: an address admitted twice gets two connect dispatches. -/
 example : (runLoop {} {} [{ incoming := [1] }, { polls := [⟨1, [.err], false⟩] }, { incoming := [1] }]).2.count
     (.dispatchConnect 1) = 2 := by decide
